@@ -7,6 +7,8 @@ import (
 	"math/big"
 	mbits "math/bits"
 	"math/rand/v2"
+	"sort"
+	"strings"
 
 	"github.com/consensys/gnark/frontend"
 	"github.com/consensys/gnark/std/math/bitslice"
@@ -125,7 +127,7 @@ func bitsliceCombos() []combo {
 	return cbs
 }
 
-func runBitsliceCase(r *vcore.Run, a *acc, s *sysT, f *fieldCtx, c bsCfg, v *big.Int, rng *rand.Rand) {
+func runBitsliceCase(r *vcore.Run, a *acc, s *sysT, f *fieldCtx, c bsCfg, v *big.Int, rng *rand.Rand, doLies bool) {
 	exp := bitsliceExpect(f, c, v)
 	var in []*big.Int
 	if c.constV == nil {
@@ -141,7 +143,7 @@ func runBitsliceCase(r *vcore.Run, a *acc, s *sysT, f *fieldCtx, c bsCfg, v *big
 		r.SampleClass("bitslice.Partition/out-of-domain-rejected", map[string]any{"system": s.String(), "v": v.String(), "solver_said": errStr(res.err)})
 	}
 	cs.confirm()
-	if c.nocheck || c.constV != nil {
+	if c.nocheck || c.constV != nil || !doLies {
 		// unconstrained outputs: dishonest hints are allowed to move them (documented); constants: no hints
 		cs.finish()
 		return
@@ -178,7 +180,7 @@ func bitsliceJobs(r *vcore.Run) []job {
 				rng := r.Rand(fmt.Sprintf("bitslice-tiny/%s/%d", bld, digits))
 				maxSplit := digits - 1
 				if digits == 0 || digits >= fTiny.bits {
-					maxSplit = fTiny.bits
+					maxSplit = fTiny.bits - 1 // split = field width leaves a zero-width upper part: not a documented use
 				}
 				for split := 0; split <= maxSplit; split++ {
 					for _, nocheck := range []bool{false, true} {
@@ -188,7 +190,7 @@ func bitsliceJobs(r *vcore.Run) []job {
 							continue
 						}
 						for v := int64(0); v < 47; v++ {
-							runBitsliceCase(r, a, s, fTiny, c, bi(v), rng)
+							runBitsliceCase(r, a, s, fTiny, c, bi(v), rng, true)
 						}
 					}
 					// constants: "input larger than bound" panics, otherwise folded
@@ -208,7 +210,7 @@ func bitsliceJobs(r *vcore.Run) []job {
 							a.count("compile.ACCEPTED-invalid-config", 1)
 							r.Violation("bitslice.Partition/constant-above-nbDigits-accepted", g.name+" compiled", map[string]any{"gadget": g.name})
 						default:
-							runBitsliceCase(r, a, s, fTiny, c, bi(v), rng)
+							runBitsliceCase(r, a, s, fTiny, c, bi(v), rng, true)
 						}
 					}
 				}
@@ -220,6 +222,9 @@ func bitsliceJobs(r *vcore.Run) []job {
 		for _, bld := range builders {
 			for _, hide := range []bool{false, true} {
 				ds := []int{0, 1, 2, 8, 9, 32, 33, 64, 65, f.bits - 1, f.bits, f.bits + 3}
+				if r.Quick() {
+					ds = []int{0, 1, 8, 9, 64, 65, f.bits - 1, f.bits + 3}
+				}
 				for _, digits := range ds {
 					f, bld, hide, digits := f, bld, hide, digits
 					jobs = append(jobs, job{name: fmt.Sprintf("bitslice-big/%s/%s/hide=%v/digits=%d", f.name, bld, hide, digits), run: func(a *acc) {
@@ -250,13 +255,13 @@ func bitsliceJobs(r *vcore.Run) []job {
 									sub(pow2(width), bi(1)), pow2(width), add(pow2(width), bi(1)), sub(pow2(width-1), bi(1)), pow2(width - 1),
 									sub(f.p, bi(1)), sub(f.p, bi(2)), sub(pow2(f.bits), f.p), randBelow(rng, pow2(width)), randBelow(rng, pow2(width)), randBelow(rng, f.p)}
 								seen := map[string]bool{}
-								for _, v := range raw {
+								for vi, v := range raw {
 									v = modp(v, f.p)
 									if seen[v.String()] {
 										continue
 									}
 									seen[v.String()] = true
-									runBitsliceCase(r, a, s, f, c, v, rng)
+									runBitsliceCase(r, a, s, f, c, v, rng, r.Thorough() || (vi+split)%3 == 0)
 								}
 							}
 						}
@@ -590,23 +595,34 @@ func wordValues(W int, rng *rand.Rand, nRand int) []*big.Int {
 	return vs
 }
 
-func uintsFamily[T uints.Long](r *vcore.Run, f *fieldCtx, bld string) []job {
+// uintsFam: signature family of an operation (width-independent: the code is generic over U32/U64).
+func uintsFam(o uop) string {
+	switch o.kind {
+	case "And", "Or", "Xor", "Not":
+		return "uints.bitwise"
+	case "Lrot", "Rshift":
+		return "uints.rotate-shift"
+	case "ValueOf", "ByteValueOf", "RoundTrip", "Pack", "AssertEq":
+		return "uints.conversion"
+	}
+	return "uints." + o.kind
+}
+
+func uintsFamily[T uints.Long](r *vcore.Run, f *fieldCtx, bld string, tableOps []uop) []job {
 	var z T
 	W := len(z)
 	wb := 8 * W
-	fam := fmt.Sprintf("uints.U%d", wb)
 	var ops []uop
 	ops = append(ops, uop{kind: "ValueOf"}, uop{kind: "ByteValueOf"}, uop{kind: "RoundTrip"}, uop{kind: "Pack"}, uop{kind: "AssertEq"},
-		uop{kind: "Add", nOps: 2}, uop{kind: "Add", nOps: 3}, uop{kind: "Add", nOps: 2, raw: true},
-		uop{kind: "Xor", nOps: 2}, uop{kind: "And", nOps: 2}, uop{kind: "Or", nOps: 2}, uop{kind: "Not"},
-		uop{kind: "Xor", nOps: 3}, uop{kind: "And", nOps: 2, raw: true})
+		uop{kind: "Add", nOps: 2}, uop{kind: "Add", nOps: 3}, uop{kind: "Add", nOps: 2, raw: true})
+	ops = append(ops, tableOps...)
 	rots := []int{0, 1, 7, 8, 9, wb - 1, wb, -1, -8, wb/2 + 3}
 	shs := []int{0, 1, 7, 8, 9, wb - 1, wb - 8, wb/2 + 3}
 	if r.Quick() {
 		rots = []int{0, 1, 8, wb - 1, -3, wb/2 + 3}
 		shs = []int{0, 1, 8, wb - 1, wb/2 + 3}
 	} else {
-		ops = append(ops, uop{kind: "Or", nOps: 3}, uop{kind: "And", nOps: 3}, uop{kind: "Xor", nOps: 2, raw: true}, uop{kind: "Add", nOps: 5})
+		ops = append(ops, uop{kind: "Add", nOps: 5})
 	}
 	for _, c := range rots {
 		ops = append(ops, uop{kind: "Lrot", c: c})
@@ -622,6 +638,7 @@ func uintsFamily[T uints.Long](r *vcore.Run, f *fieldCtx, bld string) []job {
 		o := o
 		jobs = append(jobs, job{name: fmt.Sprintf("uints/%s/%s/U%d/%s", f.name, bld, wb, o), run: func(a *acc) {
 			g := uintsGadget[T](o)
+			fam := uintsFam(o)
 			s := mustCompile(r, a, f, bld, g, fam)
 			if s == nil {
 				return
@@ -659,7 +676,7 @@ func uintsFamily[T uints.Long](r *vcore.Run, f *fieldCtx, bld string) []job {
 			default:
 				n := r.Pick(14, 40)
 				if heavy {
-					n = r.Pick(8, 24)
+					n = r.Pick(4, 12)
 				}
 				maxv := sub(pow2(wb), bi(1))
 				all := make([]*big.Int, nOperands)
@@ -681,7 +698,11 @@ func uintsFamily[T uints.Long](r *vcore.Run, f *fieldCtx, bld string) []job {
 			}
 			// out-of-width operands (not for witness bytes: their range is documented as unenforced)
 			if !o.raw && o.kind != "Pack" && o.kind != "ByteValueOf" {
-				for _, bad := range []*big.Int{pow2(wb), add(pow2(wb), bi(1)), sub(f.p, bi(1)), pow2(64), add(pow2(70), bi(3))} {
+				bads := []*big.Int{pow2(wb), add(pow2(wb), bi(1)), sub(f.p, bi(1)), pow2(64), add(pow2(70), bi(3))}
+				if heavy && r.Quick() {
+					bads = bads[:1]
+				}
+				for _, bad := range bads {
 					t := make([]*big.Int, nOperands)
 					for j := range t {
 						t[j] = wv[rng.IntN(len(wv))]
@@ -691,14 +712,25 @@ func uintsFamily[T uints.Long](r *vcore.Run, f *fieldCtx, bld string) []job {
 				}
 			}
 			var cbs []combo
-			cbs = append(cbs, singles(toBytesLies())...)
+			if !heavy || r.Thorough() {
+				cbs = append(cbs, singles(toBytesLies())...)
+			} else {
+				cbs = append(cbs, singles(toBytesLies()[:1])...)
+			}
+			trim := func(ls []lie) []lie {
+				if r.Thorough() {
+					return ls
+				}
+				// flip-bit0, +256, packed-row(x+1), packed-row(y-1), result-of-other-op
+				return []lie{ls[0], ls[2], ls[5], ls[8], ls[9]}
+			}
 			switch o.kind {
 			case "Xor", "Not":
-				cbs = append(cbs, singles(byteOpLies(hXor, hAnd, hOr))...)
+				cbs = append(cbs, singles(trim(byteOpLies(hXor, hAnd, hOr)))...)
 			case "And":
-				cbs = append(cbs, singles(byteOpLies(hAnd, hXor, hOr))...)
+				cbs = append(cbs, singles(trim(byteOpLies(hAnd, hXor, hOr)))...)
 			case "Or":
-				cbs = append(cbs, singles(byteOpLies(hOr, hXor, hAnd))...)
+				cbs = append(cbs, singles(trim(byteOpLies(hOr, hXor, hAnd)))...)
 			case "Add", "Lrot", "Rshift":
 				for _, l := range partitionHintLies() {
 					cbs = append(cbs, combo{l}, combo{l.nth(0)}, combo{l.nth(W - 1)})
@@ -728,12 +760,12 @@ func uintsFamily[T uints.Long](r *vcore.Run, f *fieldCtx, bld string) []job {
 					exp = uintsExpect(o, W, vals)
 				}
 				cs := newCase(r, a, s, fam, in, exp)
-				a.count(fam+".op."+o.kind, 1)
+				a.count(fmt.Sprintf("uints.U%d.op.%s", wb, o.kind), 1)
 				res := cs.honest()
 				if exp.kind == kExact {
-					r.SampleClass(fam+"/honest-exact/"+o.kind, map[string]any{"system": s.String(), "operands": vstr(vals), "result_bytes": vstr(res.outs)})
+					r.SampleClass("uints/honest-exact/"+o.kind, map[string]any{"system": s.String(), "operands": vstr(vals), "result_bytes": vstr(res.outs)})
 				}
-				if heavy && r.Quick() && ti%2 == 1 {
+				if heavy && ((r.Quick() && ti != 0) || (r.Thorough() && ti%3 != 0)) {
 					cs.finish()
 					continue
 				}
@@ -787,11 +819,38 @@ func uintsFamily[T uints.Long](r *vcore.Run, f *fieldCtx, bld string) []job {
 
 func uintsJobs(r *vcore.Run) []job {
 	var jobs []job
+	// And/Or/Xor/Not build 2^16-row lookup tables: 65k (R1CS) / 262k (PLONK) constraints per circuit, a
+	// Solve costs ~0.3 s.  Quick: one operation per (field, builder, width) slot; thorough: all of them.
+	all := []uop{{kind: "Xor", nOps: 2}, {kind: "And", nOps: 2}, {kind: "Or", nOps: 2}, {kind: "Not"}, {kind: "Xor", nOps: 3},
+		{kind: "Or", nOps: 3}, {kind: "And", nOps: 2, raw: true}, {kind: "Xor", nOps: 2, raw: true}}
+	slot := 0
 	for _, f := range bigFields {
 		for _, bld := range builders {
-			jobs = append(jobs, uintsFamily[uints.U32](r, f, bld)...)
-			jobs = append(jobs, uintsFamily[uints.U64](r, f, bld)...)
+			t32, t64 := all, all
+			if r.Quick() {
+				t32, t64 = nil, nil
+				k := int((r.Seed%5+5)%5) + slot
+				if slot%2 == 0 {
+					t32 = []uop{all[k%5]}
+				} else {
+					t64 = []uop{all[k%5]}
+				}
+				slot++
+			}
+			jobs = append(jobs, uintsFamily[uints.U32](r, f, bld, t32)...)
+			jobs = append(jobs, uintsFamily[uints.U64](r, f, bld, t64)...)
 		}
 	}
+	// table circuits first (longest jobs)
+	sort.SliceStable(jobs, func(i, j int) bool { return heavyName(jobs[i].name) && !heavyName(jobs[j].name) })
 	return jobs
+}
+
+func heavyName(n string) bool {
+	for _, k := range []string{"/Xor", "/And", "/Or", "/Not"} {
+		if strings.Contains(n, k) {
+			return true
+		}
+	}
+	return false
 }
